@@ -172,6 +172,9 @@ def eq(a, b):
     if is_z3(a) or is_z3(b):
         a, b = coerce_pair(a, b)
         return a == b
+    if hasattr(a, "shape") or hasattr(b, "shape"):
+        import numpy as np
+        return bool(np.array_equal(a, b))
     return a == b
 
 
@@ -179,6 +182,9 @@ def ne(a, b):
     if is_z3(a) or is_z3(b):
         a, b = coerce_pair(a, b)
         return a != b
+    if hasattr(a, "shape") or hasattr(b, "shape"):
+        import numpy as np
+        return not bool(np.array_equal(a, b))
     return a != b
 
 
@@ -312,6 +318,16 @@ def _collect_patterns(body, bound):
     return [z3.MultiPattern(*chosen)] if len(chosen) > 1 else chosen
 
 
+_DEPTH = [0]
+
+
+def _bound(prefix, n):
+    """bound variables are named by nesting depth (not by a global counter) so that the same clause built twice
+    is the same z3 term; every quantifier closes over its own variables before the term is used elsewhere, and
+    nested quantifiers use a deeper name, so no capture can occur"""
+    return [z3.Int("%s@%d.%d" % (prefix, _DEPTH[0], i)) for i in range(n)]
+
+
 def forall(lo, hi, fn, pats=None):
     """forall k in [lo, hi): fn(k)   (fn may take several arguments: all range over [lo, hi))"""
     import inspect
@@ -327,8 +343,12 @@ def forall(lo, hi, fn, pats=None):
                 continue
             out.append(implies(g, fn(*ks)))
         return conj(*out)
-    ks = [fresh_int("q") for _ in range(n)]
-    body = to_z3_bool(fn(*ks))
+    ks = _bound("q", n)
+    _DEPTH[0] += 1
+    try:
+        body = to_z3_bool(fn(*ks))
+    finally:
+        _DEPTH[0] -= 1
     guard = to_z3_bool(conj(*[between(lo, k, hi) for k in ks]))
     full = z3.Implies(guard, body)
     if pats is not None:
@@ -355,8 +375,12 @@ def exists(lo, hi, fn):
                 continue
             out.append(conj(g, fn(*ks)))
         return disj(*out)
-    ks = [fresh_int("e") for _ in range(n)]
-    body = to_z3_bool(fn(*ks))
+    ks = _bound("e", n)
+    _DEPTH[0] += 1
+    try:
+        body = to_z3_bool(fn(*ks))
+    finally:
+        _DEPTH[0] -= 1
     guard = to_z3_bool(conj(*[between(lo, k, hi) for k in ks]))
     return z3.Exists(ks, z3.And(guard, body))
 
